@@ -10,6 +10,14 @@ func vUncommittedCC(s *vLogSnap) uint64 {
 	for k := range s.win {
 		n += vIte(vAnd(s.win[k].Index > s.committed, s.win[k].Type == pb.ConfigChangeEntry), 1, 0)
 	}
+	// persisted entries not shadowed by the in-memory window (after a restart the
+	// whole uncommitted tail may live in the log store only)
+	if !s.hasSS {
+		for k := range s.pers {
+			visible := vOr(len(s.win) == 0, s.pers[k].Index < s.mi)
+			n += vIte(vAnd(visible, vAnd(s.pers[k].Index > s.committed, s.pers[k].Type == pb.ConfigChangeEntry)), 1, 0)
+		}
+	}
 	return n
 }
 
@@ -186,7 +194,7 @@ func VHarness_C07_ElectionBlocked() {
 // with the pending flag set (so it admits no second one).
 //vcheck: reach=elected,withcc,done workers=8
 func VHarness_C07_NewLeaderPendingFlag() {
-	o := vRaftOpts{pairs: [][2]uint64{{vS3, 1}}, log: vLogOpts{maxWin: 2, types: true, noAppliedTo: true, allSaved: true}, roles: []State{candidate}}
+	o := vRaftOpts{pairs: [][2]uint64{{vS3, 1}}, log: vLogOpts{maxPers: 2, maxWin: 2, types: true, noAppliedTo: true, allSaved: true}, roles: []State{candidate}}
 	r, c := vRaft(o)
 	pre := vSnapLog(r.log)
 	ncc := vUncommittedCC(pre)
